@@ -21,11 +21,11 @@ ENGINE = "cfgx"
 TIMEOUT = 1200
 NSHARDS = 64
 ENV = {"NUMBA_DISABLE_JIT": "1"}
-TECHNIQUE = ("bounded exhaustive enumeration (k-deviations of 8 bucket/dtype axes x 5 schedules x 2 readout modes, "
+TECHNIQUE = ("bounded exhaustive enumeration (k<=3 deviations of 8 bucket/dtype axes x 5 schedules x 2 readout modes, "
              "full dtype product on single-bucket pipelines) of writer-probe pipelines executed through pyxel.run_mode "
              "in both result layouts and with debug capture; returned DataTree compared with per-step snapshots taken "
              "by a last-position probe")
-LEVEL_TEXT = ("Every configuration differing in at most 2 (quick: 1) of 8 axes from the base pipeline (photon 2-D "
+LEVEL_TEXT = ("Every configuration differing in at most 3 (quick: 1, plus 6 selected pairs) of 8 axes from the base pipeline (photon 2-D "
               "float64/32/16 or 2-3 wavelengths, charge array/clusters, pixel and signal float64/32/16, image "
               "uint16/8/32/64 incl. edge values and uint64 above 2**53, scene, flat/nested processed data, debug "
               "off/on/on with step-independent values), times 5 schedules (1-3 steps, uniform, non-uniform, start "
@@ -36,11 +36,11 @@ LEVEL_TEXT = ("Every configuration differing in at most 2 (quick: 1) of 8 axes f
               "labelled start+t_i and range(rows)/range(cols); the image must keep its unsigned dtype; /scene and "
               "/data must equal the final containers; both layouts and debug on/off must carry identical buckets; "
               "each debug node must list exactly the buckets the model changed (measured inside the model).")
-LEVEL_NOTE = ("Bounded: 2x3 detector, <=3 readouts, deviation bound 2, the value palette of the writer probe. Buckets "
+LEVEL_NOTE = ("Bounded: 2x3 detector, <=3 readouts, deviation bound 3, the value palette of the writer probe. Buckets "
               "written only in some steps are excluded (the statement does not define their slices). Variables are "
               "located by name in '/' or '/bucket'. Trusted: numpy/xarray equality, the 60-line comparison code.")
 DESIGN_REF = "DESIGN.md section 4, C03"
-RULE = ("cases = P (all configurations within k deviations of the base on 8 axes; k=1 quick, 2 thorough) x 5 schedules "
+RULE = ("cases = P (all configurations within k deviations of the base on 8 axes; k=1 quick, 3 thorough) x 5 schedules "
         "x 2 modes + T (single-bucket pipelines: full dtype x palette product) x 5 schedules x 2 modes; each case runs "
         "the hierarchical and the flat layout (+ debug run); non-trivial = at least one bucket slice was compared; "
         "distinct = distinct (configuration, schedule, mode, per-bucket dtype/shape of the result) signatures")
@@ -87,7 +87,7 @@ def _seed():
 # ------------------------------------------------------------------ enumeration
 
 def enumerate_cases(tier, seed):
-    k = 2 if tier == "thorough" else 1
+    k = 3 if tier == "thorough" else 1
     cases = []
     for cfg in cfgx.k_deviations(BASE, AXES, k):
         cfg = {a: cfg[a] for a in AXES}
@@ -127,7 +127,7 @@ def _single_bucket_cfgs(empty):
 
 
 def expected_size(tier, seed):
-    k = 2 if tier == "thorough" else 1
+    k = 3 if tier == "thorough" else 1
     n_p = cfgx.n_k_deviations(BASE, AXES, k) + (0 if tier == "thorough" else 6)
     n_t = 3 * 3 + 3 + 3 + 4 * 2 + 1
     return (n_p + n_t) * len(SCHEDULES) * 2
